@@ -63,20 +63,23 @@ Diff(want, got) ==
   ELSE IF want.rows # got.rows
   THEN IF want.rows \ got.rows # {}
        THEN DiffCarrier("row", CHOOSE x \in want.rows \ got.rows : TRUE, got.rows,
-                        LAMBDA x, y : x.r = y.r, LAMBDA x, y : <<x.r, x.ht, x.hid, y.ht, y.hid>>)
+                        LAMBDA x, y : x.r = y.r,
+                        LAMBDA x, y : <<x.r, "expected ht/customHeight/hidden/thickBot/dyDescent", x.ht, x.ch, x.hid, x.tb, x.dd,
+                                        "observed", y.ht, y.ch, y.hid, y.tb, y.dd>>)
        ELSE <<"row", "only in the observation", CHOOSE x \in got.rows \ want.rows : TRUE>>
   ELSE IF want.cols \ got.cols # {}
        THEN DiffCarrier("col", CHOOSE x \in want.cols \ got.cols : TRUE, got.cols,
-                        LAMBDA x, y : x.c = y.c, LAMBDA x, y : <<x.c, x.w, x.hid, y.w, y.hid>>)
+                        LAMBDA x, y : x.c = y.c,
+                        LAMBDA x, y : <<x.c, "expected width/hidden/bestFit", x.w, x.hid, x.bf, "observed", y.w, y.hid, y.bf>>)
        ELSE <<"col", "only in the observation", CHOOSE x \in got.cols \ want.cols : TRUE>>
 
 (* ---- assignments ------------------------------------------------------------------------------ *)
 RECURSIVE FoldCells(_, _)
 FoldCells(B, cs) == IF cs = <<>> THEN B ELSE FoldCells(SetCellB(B, Head(cs).r, Head(cs).c, Head(cs).sty), Tail(cs))
 RECURSIVE FoldRows(_, _)
-FoldRows(B, rs) == IF rs = <<>> THEN B ELSE FoldRows(SetRowB(B, Head(rs).r, Head(rs).ht, Head(rs).hid, Head(rs).sty), Tail(rs))
+FoldRows(B, rs) == IF rs = <<>> THEN B ELSE FoldRows(SetRowB(B, Head(rs).r, Head(rs), Head(rs).sty), Tail(rs))
 RECURSIVE FoldCols(_, _)
-FoldCols(B, ks) == IF ks = <<>> THEN B ELSE FoldCols(SetColB(B, Head(ks).c, Head(ks).w, Head(ks).hid, Head(ks).sty), Tail(ks))
+FoldCols(B, ks) == IF ks = <<>> THEN B ELSE FoldCols(SetColB(B, Head(ks).c, Head(ks), Head(ks).sty), Tail(ks))
 AssignB(B, e) == FoldCells(FoldCols(FoldRows(B, e.rows), e.cols), e.cells)
 
 AssignInContract(e) ==
